@@ -182,7 +182,8 @@ def run(model, rep, tier):
                             '_N_td[self.tagdicttype[_N_u], self.tagdict[_N_u]].append(_N_u)\n    else:\n        _N_bad.append(_N_u)')
     rep.ob('verbose-report', mod, t2p, 'unknown tags go to the bad-tag list, known tags are grouped by (type, class index)', bool(bad),
            '' if bad else 'the verbose report no longer separates unknown tags / groups known tags by class', engine='flow')
-    init = pattern.find(t2p, '_N_td = {(_N_t, _N_n): [] for _N_t, _N_l in self.tags.items() for _N_n in range(len(_N_l))}')
+    init = pattern.find(t2p, '_N_td = {(_N_t, _N_n): [] for _N_t, _N_l in self.tags.items() for _N_n in range(len(_N_l))}') or \
+        pattern.find(t2p, 'for _N_t, _N_l in self.tags.items():\n    for _N_n in range(len(_N_l)):\n        _N_td[_N_t, _N_n] = []')
     rep.ob('verbose-report', mod, t2p, 'every class of every type starts with an empty list', bool(init),
            '' if init else 'some class cannot be reported as missing', engine='flow')
     miss = pattern.find(t2p, 'len(_N_v) == 0', 'expr')
